@@ -260,8 +260,19 @@ def rule_qindex(ctx: Ctx, rel: str, cname: str, hooks: List[str]):
                     holder = getattr(holder, "_parent", None)
                     continue
                 break
+            via = c
+            if isinstance(holder, ast.Assign) and len(holder.targets) == 1 and isinstance(holder.targets[0], ast.Name):
+                # `pos = q_index(op.x, op.x_type)` ... `state.apply_h(pos)`: follow the local to its (single) consuming call
+                v = holder.targets[0].id
+                uses = [x for x in calls_in(fn) if any(isinstance(a, ast.Name) and a.id == v for a in list(x.args) + [k.value for k in x.keywords])
+                        and call_attr(x) in ROLE_BY_CALLEE]
+                if len(uses) >= 1:
+                    holder = uses[0]
+                    via = next(a for a in list(holder.args) + [k.value for k in holder.keywords] if isinstance(a, ast.Name) and a.id == v)
             if not isinstance(holder, ast.Call):
-                raise AnalysisError(f"{rel}::{cname}.{hook}: q_index call used outside a backend call: {short(c)}")
+                # the index flows into a local collection: the pairing (B1) is decided, the role binding (B2) is not
+                ctx.note(f"{rel}::{cname}.{hook}: role of `{short(c)}` not decided (index stored in a local before use)")
+                continue
             callee = call_attr(holder)
             kind = ROLE_BY_CALLEE.get(callee)
             if kind is None:
@@ -272,10 +283,10 @@ def rule_qindex(ctx: Ctx, rel: str, cname: str, hooks: List[str]):
                     raise AnalysisError(f"{rel}::{cname}.{hook}: cannot resolve signature of `{callee}`")
                 pname = None
                 for kw in holder.keywords:
-                    if kw.value is c:
+                    if kw.value is via:
                         pname = kw.arg
                 for i, a in enumerate(holder.args):
-                    if a is c and i < len(params):
+                    if a is via and i < len(params):
                         pname = params[i]
                 if pname is None:
                     raise AnalysisError(f"{rel}::{cname}.{hook}: cannot bind q_index argument of `{callee}`")
@@ -482,3 +493,84 @@ def rule_condition(ctx: Ctx):
                         ctx.fail("sibling.condition", m, n.test,
                                  f"measurement-conditioned correction is guarded by `{short(t)}`; every sibling applies the "
                                  f"correction exactly when the outcome is 1", func=q)
+
+
+
+def rule_pair_noise_applied(ctx: Ctx) -> None:
+    """noise.both-applied: for a controlled pair, _apply_additional_noise applies the control's noise on the control qubit and
+    the target's noise on the target qubit on every path (an early exit after one of them drops the other)."""
+    repo = ctx.repo
+    pos = hook_positions(repo)
+    cp = repo.cls("ControlledPairOperationBase", OPS)
+    for rel, cname in COMPILERS:
+        m = repo.module(rel)
+        fn = repo.anchor(rel, f"{cname}._apply_additional_noise")
+        ctx.touch(m, fn)
+        ps = func_params(fn)[1:]
+        on, qn = ps[1], ps[3]
+        chain = flat_chain(repo, m, fn, on)
+        b = reach(repo, chain, cp)
+        if b is None or b.raises:
+            ctx.fail("noise.both-applied", m, fn, f"{cname}._apply_additional_noise has no branch for controlled pair operations",
+                     func=f"{cname}._apply_additional_noise", construct=f"{cname}: no pair branch")
+            continue
+
+        def role_of_call(c: ast.Call):
+            for a in ast.walk(c):
+                if isinstance(a, ast.Call) and isinstance(a.func, ast.Name) and a.func.id == qn:
+                    r = qindex_role(a, on)
+                    if r:
+                        return r[0]
+            return None
+
+        # registers bound to names / lists first
+        reg_names = {}
+        for n in ast.walk(ast.Module(body=b.body, type_ignores=[])):
+            if isinstance(n, ast.Assign) and len(n.targets) == 1 and isinstance(n.targets[0], ast.Name):
+                roles = [qindex_role(x, on)[0] for x in ast.walk(n.value) if isinstance(x, ast.Call) and isinstance(x.func, ast.Name)
+                         and x.func.id == qn and qindex_role(x, on)]
+                if roles:
+                    reg_names[n.targets[0].id] = roles
+
+        def step(node, s):
+            if isinstance(node, (ast.If, ast.While, ast.For)):
+                return s
+            c0, t0 = s
+            for c in [x for x in ast.walk(node) if isinstance(x, ast.Call) and call_attr(x) == "apply"]:
+                r = role_of_call(c)
+                if r == "control":
+                    c0 = min(2, c0 + 1)
+                elif r == "target":
+                    t0 = min(2, t0 + 1)
+            return (c0, t0)
+
+        # a loop `for noise, reg in zip(op.noise, <two registers>)` whose body applies unconditionally counts once for each
+        loops = [l for l in b.body if isinstance(l, ast.For)]
+        body = list(b.body)
+        extra = (0, 0)
+        for l in loops:
+            names = {x.id for x in ast.walk(l.iter) if isinstance(x, ast.Name)}
+            regs = [r for nme in names for r in reg_names.get(nme, [])]
+            uncond = flow.must_pass(l.body, lambda nd: not isinstance(nd, (ast.If, ast.For, ast.While)) and any(
+                isinstance(x, ast.Call) and call_attr(x) == "apply" for x in ast.walk(nd)))
+            early = any(isinstance(x, (ast.Break, ast.Continue, ast.Return)) for x in ast.walk(l))
+            if sorted(regs) == ["control", "target"]:
+                if uncond and not early:
+                    extra = (extra[0] + 1, extra[1] + 1)
+                else:
+                    ctx.fail("noise.both-applied", m, l,
+                             f"{cname}._apply_additional_noise applies the pair's noise in a loop that can skip or stop early "
+                             f"(`break`/`continue`/conditional apply): when the control's noise is e.g. NoNoise the target's noise is "
+                             f"silently dropped", func=f"{cname}._apply_additional_noise", construct=f"{cname}: pair-noise loop with early exit")
+                    extra = None
+                    break
+        if extra is None:
+            continue
+        o = flow.run(body, step, {(0, 0)})
+        ends = {(c0 + extra[0], t0 + extra[1]) for (c0, t0) in (o.fall | o.ret)}
+        if ends == {(1, 1)}:
+            ctx.ok("noise.both-applied", m, b.node, what=f"{cname}: control and target noise each applied once on every path")
+        else:
+            ctx.fail("noise.both-applied", m, b.node,
+                     f"{cname}._apply_additional_noise applies (control, target) noise {sorted(ends)} times depending on the path; both must be "
+                     f"applied exactly once", func=f"{cname}._apply_additional_noise", construct=f"{cname}: pair noise counts {sorted(ends)}")
